@@ -23,7 +23,7 @@ RULE = (
     "one derived value) computes SHA-256 of every artefact twice in-process: interaction lists, write_json bytes, "
     "write_csv bytes, BPSEQ, dot-bracket, extended dot-bracket, the ORDERED list of all dot-brackets (BpSeq and "
     "Mapping2D3D, with and without gap detection), element descriptions, annotator CLI stdout/JSON/CSV, the stdout of clashfinder and "
-    "motif_extractor and the files written by splitter for the same input, write_pdb "
+    "motif_extractor, the files written by splitter and the stdout/JSON/CSV of the external-tool adapter on a listing derived from the same input, write_pdb "
     "and write_cif text of the atom table, both removals. Oracle (metamorphic): all digests equal across "
     "interpreters, seeds and passes. Additionally SIBLING inputs - the same molecule with two sets of coordinates, as NMR models or MD "
     "frames are - are processed in one interpreter in both orders: every artefact of an input must be the same whatever "
